@@ -239,8 +239,9 @@ def sc_term(ex, poly):
         ex.add(z3.ULT(c, z3.BitVecVal(R, 256)))
         zc = zero_cond(ex, poly)
         ex.add((c == 0) == (z3.BoolVal(zc) if isinstance(zc, bool) else zc))
-        # two stored values are equal iff their polynomials agree
-        for name, p2 in list(st['sc'].items()):
+        # two stored values are equal iff their polynomials agree (only needed when scalar bytes are compared
+        # outside the vec_is_equal / vec_is_zero contracts)
+        for name, p2 in (list(st['sc'].items()) if getattr(ex, 'galg_scalar_eq_axioms', False) else []):
             if name != str(c):
                 dc = zero_cond(ex, poly - p2)
                 ex.add((c == z3.BitVec(name, 256)) == (z3.BoolVal(dc) if isinstance(dc, bool) else dc))
@@ -297,8 +298,8 @@ def elem(ex, kind, dlog, tors=ZERO, aff=True):
         e = GE(kind, dlog, tors, aff)
         e.name = '%s!%d' % (kind, len(st['elems']))
         e.id = z3.BitVec(e.name, 64)
-        if aff:
-            # affine coordinates determine the group element: two affine representatives have equal
+        if aff and getattr(ex, 'galg_coord_axioms', False):
+            # (only needed when points are Go map keys, C02) affine coordinates determine the group element: two affine representatives have equal
             # (x, y) limbs iff they are the same element
             F, xl = LIMB[kind], XL[kind]
             for e2 in st['elems'].values():
@@ -738,9 +739,9 @@ def st_redc_alg(orig):
         m = a[1].obj.meta or {}
         if 'inv_of' in m:
             x = m['inv_of']
-            # (a*R)^-1 * R^2 / R ... Fr_inv_montg_eucl(res, a) returns a^-1 * R for a in Montgomery form:
-            # input x = v*R, output = v^-1 * R = x^-1 * R^2
-            wr(ex, a[0], 4, pow(x, -1, R) * pow(1 << 256, 2, R) % R if x % R else 0)
+            # Fr_inv_montg_eucl(res, x): ct_inverse gives x^-1 * 2^512, the Montgomery reduction divides by
+            # 2^256: the result is x^-1 * R (for x = D*R this is D^-1, as the caller's comment says)
+            wr(ex, a[0], 4, pow(x, -1, R) * pow(1 << 256, 1, R) % R if x % R else 0)
             return
         return orig(L, ex, a, I)
     return f
